@@ -635,6 +635,9 @@ func stepBudget(r *RNG, p profile, tier string) int {
 }
 
 func genTrace(prop string, seed uint64, run int, o genOpts) *Trace {
+	if prop == "C10" {
+		return genNodeTrace(seed, run, o)
+	}
 	r := NewRNG(mix2(mix2(seed, hashStr(prop+"/"+o.domain)), uint64(run)))
 	p := profileFor(prop)
 	tr := &Trace{Prop: prop, Seed: seed, Run: run, Domain: o.domain}
@@ -696,6 +699,53 @@ func genTrace(prop string, seed uint64, run int, o genOpts) *Trace {
 			return layExact, 0
 		}
 		return r.Weighted([]int{25, 45, 30}), r.Range(1, 9)
+	}
+
+	// sweep phase (1 run in 25): one node climbs through every size class to all
+	// 256 children and back down, the only way to reach a full 256-slot node
+	if r.Intn(25) == 0 {
+		ti := r.Intn(nT)
+		g := gts[ti]
+		if g.kt.Kind != "collation" && g.kt.Kind != "compound" {
+			perm := make([]int, 256)
+			for i := range perm {
+				perm[i] = i
+			}
+			for i := 255; i > 0; i-- {
+				j := r.Intn(i + 1)
+				perm[i], perm[j] = perm[j], perm[i]
+			}
+			mk := func(x int) []byte {
+				if g.kt.Kind == "alpha" {
+					return append(clone(g.fanPfx), byte(x), 'a')
+				}
+				return u64bytes(normField(g.kt.T, g.kt.Bits32, (g.bases[0]&^0xFF)|uint64(x)))
+			}
+			for _, x := range perm {
+				k := mk(x)
+				if g.kt.Kind == "alpha" && o.domain == "main" && g.m.nulRelated(k) {
+					continue
+				}
+				s := Step{T: ti, Op: "ins", K: k, V: nextID}
+				s.Lay, s.Pad = lay(g)
+				nextID++
+				g.m.Put(k, s.V)
+				g.remember(k)
+				emit(s)
+				if r.Chance(1, 16) {
+					emit(Step{T: ti, Op: "get", K: mk(r.Intn(256))})
+				}
+			}
+			down := r.Range(200, 256)
+			for i := 0; i < down; i++ {
+				k := mk(perm[(i*7+3)%256])
+				s := Step{T: ti, Op: "del", K: k}
+				s.Lay, s.Pad = lay(g)
+				g.m.Del(k)
+				emit(s)
+			}
+			budget += len(tr.Steps)
+		}
 	}
 
 	for len(tr.Steps) < budget {
